@@ -97,7 +97,7 @@ fn at_mut<'a>(item: &'a mut Item, path: &[usize]) -> Option<&'a mut Item> {
     Some(cur)
 }
 
-pub const N_STRUCT_KINDS: u64 = 20;
+pub const N_STRUCT_KINDS: u64 = 21;
 
 pub struct Mutation {
     pub bytes: Vec<u8>,
@@ -427,6 +427,31 @@ pub fn struct_mutate(bytes: &[u8], kind: u64, sel: u64, arg: u64) -> Option<Muta
             let it = at_mut(&mut top, &s.path)?;
             *it = Item { major: 7, ai: [23u8, 19, 0, 16][(arg % 4) as usize], arg: 0, body: Body::None };
             m(&top, "cbor.struct.simple-value", true)
+        }
+        20 => {
+            // shrink a byte string inside leaf content to 0..2 bytes (stays canonical CBOR; typed values such as
+            // shares, keys, salts and signatures then carry too little data)
+            let mut paths = vec![];
+            all_items_paths(&top, &mut vec![], &mut paths);
+            let mut c = vec![];
+            for p in &paths {
+                let mut t2 = top.clone();
+                if let Some(it) = at_mut(&mut t2, p) {
+                    if it.major == 2 && it.ai != 31 && it.arg > 2 && it.arg != 32 {
+                        c.push(p.clone());
+                    }
+                }
+            }
+            if c.is_empty() {
+                return None;
+            }
+            let p = c[(sel % c.len() as u64) as usize].clone();
+            let it = at_mut(&mut top, &p)?;
+            if let Body::Bytes(b) = &mut it.body {
+                b.truncate((arg % 3) as usize);
+            }
+            it.fix_count();
+            m(&top, "cbor.struct.shrink-byte-string", false)
         }
         _ => {
             // drop one element of a node (still >= 2 elements): stays well-formed, different envelope
